@@ -113,10 +113,10 @@ class Ref:
                     self.soft += 1
                     self.set(op[1], d)
                     return ('ok', d)
-            if name in ('update_map', 'update_pairs', 'update_iter', 'update_kw', 'ior', 'update_mapkw'):
+            if name in ('update_map', 'update_pairs', 'update_iter', 'update_kw', 'ior', 'update_mapkw', 'update_pairskw'):
                 for k, v in op[1]:
                     self.set(k, v)
-                if name == 'update_mapkw':
+                if name in ('update_mapkw', 'update_pairskw'):
                     for k, v in op[2]:
                         self.set(k, v)
                 return ('ok', None)
@@ -186,6 +186,8 @@ def impl_apply(c, op):
             return ('ok', c.update((), **dict(op[1])))
         if name == 'update_mapkw':
             return ('ok', c.update(dict(op[1]), **dict(op[2])))
+        if name == 'update_pairskw':
+            return ('ok', c.update([tuple(p) for p in op[1]], **dict(op[2])))
         if name == 'update_self':
             return ('ok', c.update(c))
         if name == 'ior':
@@ -293,6 +295,10 @@ class Spec:
         m.append(('update_iter', ((K[1], 0), (last, 1))))
         m.append(('update_kw', ((last, 1),)))
         m.append(('update_mapkw', ((first, 0),), ((K[1], 1),)))
+        # positional and keyword items in one call: E is applied first, then every keyword is *assigned* (a key of E
+        # repeated as a keyword becomes the most recent one); a repeated key inside the pairs next to keywords
+        m.append(('update_mapkw', ((first, 1), (K[1], 0)), ((first, 0),)))
+        m.append(('update_pairskw', ((first, 1), (K[1], 0), (first, 0)), ((last, 1),)))
         m.append(('update_self',))
         m.append(('ior', ((first, 1),)))
         m.append(('ior', ((last, 0), (K[1], 0))))
@@ -550,84 +556,200 @@ class StrictKey:
         return 'StrictKey(%r)' % self.strict_key_ident
 
 
-def strict_shard(arg):
-    clsname, ms, lead = arg
+# Key families: what the names 'a', 'b', ... stand for in one search.  "arbitrary hashable keys" includes keys that are
+# falsy, None, tuples (which %-formatting treats as argument lists), numbers of several types, bytes, frozensets.
+KEY_FAMILIES = {
+    'StrictKey objects': lambda n: StrictKey(n),
+    'tuples': {'a': (), 'b': ('b',), 'c': ('c', 1), 'd': (('d',), None)}.__getitem__,
+    'None and falsy': {'a': None, 'b': 0, 'c': '', 'd': b''}.__getitem__,
+    'numbers, bytes, frozenset': {'a': 2.5, 'b': 10 ** 30, 'c': b'x', 'd': frozenset([1])}.__getitem__,
+}
+
+
+def family_history(clsname, ms, family, hist):
+    """One history over the keys of a family on a fresh cache: [(signature, expected, observed)]."""
     from boltons import cacheutils
-    from mc.inputs import Tally
     cls = getattr(cacheutils, clsname)
-    t = Tally()
     names = ALLKEYS[:ms + 1]
-    KO = {n: StrictKey(n) for n in names}
-    ops = []
-    for n in names:
-        ops += [('set', n, 0), ('getitem', n), ('getd', n, 'D'), ('del', n), ('popd', n, 'D'), ('setdefaultd', n, 1)]
-    ops += [('popitem',), ('clear',), ('copy',), ('update_pairs', ((names[0], 1), (names[-1], 0))),
-            ('ior', ((names[-1], 1),))]
+    KO = {n: KEY_FAMILIES[family](n) for n in names}
+    REV = {o: n for n, o in KO.items()}
+    sig = 'C02|%s|' % ('strict-keys' if family == 'StrictKey objects' else 'key-kinds')
+    out = []
 
     def tr(op):     # names -> key objects in an operation
         if op[0] in ('update_pairs', 'ior'):
             return (op[0], tuple((KO[k], v) for k, v in op[1]))
         return op if len(op) == 1 else (op[0], KO[op[1]]) + tuple(op[2:])
 
+    def contents(cache):
+        return {REV.get(k, repr(k)): v for k, v in dict.items(cache)}
+
+    c = cls(max_size=ms)
+    ref = Ref(clsname == 'LRU', ms, False)
+    for i, op in enumerate(hist):
+        try:
+            if op[0] == 'copy':
+                try:
+                    c2 = c.copy()
+                except Exception as e:
+                    return [(sig + 'op:copy|raised', 'an equal independent cache', type(e).__name__)]
+                if contents(c2) != ref.contents():
+                    return [(sig + 'op:copy|contents', ref.contents(), contents(c2))]
+                c = c2
+                ref = ref.copy()
+                continue
+            r_i = impl_apply(c, tr(op))
+            if op[0] == 'popitem' and r_i[0] == 'ok':
+                r_i = ('ok', (REV.get(r_i[1][0], repr(r_i[1][0])), r_i[1][1]))
+        except Exception as e:           # an exception escaping the guarded apply (should not happen)
+            r_i = ('exc', type(e).__name__)
+        r_m = ref.apply(op, r_i)
+        if r_i != r_m:
+            return [(sig + 'op:%s|result' % op[0], r_m, r_i)]
+        if contents(c) != ref.contents():
+            return [(sig + 'op:%s|contents' % op[0], ref.contents(), contents(c))]
+        if len(c) > ms:
+            return [(sig + 'op:%s|len>max_size' % op[0], '<= %d' % ms, len(c))]
+    # reads with key objects, and the eviction order by further inserts of key objects
+    for n in names:
+        try:
+            r = KO[n] in c
+        except Exception as e:
+            r = 'raised ' + type(e).__name__
+        if r != (n in ref.contents()):
+            out.append((sig + 'read:in', n in ref.contents(), r))
+    try:
+        it = sorted((REV.get(k, repr(k)) for k in c), key=repr)
+    except Exception as e:
+        it = 'raised ' + type(e).__name__
+    if it != sorted(ref.contents(), key=repr):
+        out.append((sig + 'read:iter', sorted(ref.contents(), key=repr), it))
+    try:
+        same = (c == {KO[k]: v for k, v in ref.contents().items()})
+    except Exception as e:
+        same = 'raised ' + type(e).__name__
+    if same is not True:
+        out.append((sig + 'read:==dict(equal)', True, same))
+    try:
+        rp = repr(c)
+    except Exception as e:
+        out.append((sig + 'read:repr', 'a string', 'raised ' + type(e).__name__))
+    gone = []
+    try:
+        for j in range(ms + 1):
+            c[StrictKey('probe%d' % j) if family == 'StrictKey objects' else ('probe', j)] = j
+            for n in names:
+                if n in ref.contents() and n not in gone and not dict.__contains__(c, KO[n]):
+                    gone.append(n)
+    except Exception as e:
+        gone = 'raised ' + type(e).__name__
+    want = [k for k, _ in ref.order]
+    if gone != want:
+        out.append((sig + 'eviction-order(probe)', want, gone))
+    return out
+
+
+def strict_shard(arg):
+    clsname, ms, lead, family = arg
+    from mc.inputs import Tally
+    t = Tally()
+    names = ALLKEYS[:ms + 1]
+    ops = []
+    for n in names:
+        ops += [('set', n, 0), ('getitem', n), ('getd', n, 'D'), ('del', n), ('popd', n, 'D'), ('setdefaultd', n, 1)]
+    ops += [('popitem',), ('clear',), ('copy',), ('update_pairs', ((names[0], 1), (names[-1], 0))),
+            ('ior', ((names[-1], 1),))]
     import itertools
     for rest in itertools.product(ops, repeat=2):
         hist = (lead,) + rest
-        c = cls(max_size=ms)
-        ref = Ref(clsname == 'LRU', ms, False)
-        case = {'config': {'class': clsname, 'max_size': ms, 'keys': 'StrictKey objects'}, 'history': [list(o) for o in hist]}
+        case = {'config': {'class': clsname, 'max_size': ms, 'keys': family}, 'history': [list(o) for o in hist]}
         t.count(nontrivial=True, sample=case)
-        for i, op in enumerate(hist):
-            try:
-                if op[0] == 'copy':
-                    try:
-                        c2 = c.copy()
-                    except Exception as e:
-                        t.bad('C02|strict-keys|op:copy|raised', case, 'an equal independent cache', type(e).__name__)
-                        break
-                    r_i = ('ok', None)
-                    got = {k.strict_key_ident: v for k, v in dict.items(c2)}
-                    if got != ref.contents():
-                        t.bad('C02|strict-keys|op:copy|contents', case, ref.contents(), got)
-                        break
-                    c = c2
-                    ref = ref.copy()
-                    continue
-                r_i = impl_apply(c, tr(op))
-                if op[0] == 'popitem' and r_i[0] == 'ok':
-                    r_i = ('ok', (r_i[1][0].strict_key_ident, r_i[1][1]))
-            except Exception as e:           # an exception escaping the guarded apply (should not happen)
-                r_i = ('exc', type(e).__name__)
-            r_m = ref.apply(op, r_i)
-            got = {getattr(k, 'strict_key_ident', k): v for k, v in dict.items(c)}
-            if r_i != r_m:
-                t.bad('C02|strict-keys|op:%s|result' % op[0], case, r_m, r_i)
-                break
-            if got != ref.contents():
-                t.bad('C02|strict-keys|op:%s|contents' % op[0], case, ref.contents(), got)
+        for sg, exp, got in family_history(clsname, ms, family, hist):
+            t.bad(sg, case, exp, got)
+    return t
+
+
+# ----------------------------------------------------------------------------------------------------
+# directed large caches (not exhaustive): capacities far above the fixpoint searches, so that behaviour that depends on
+# a size threshold (a "fast path above N items") meets the same reference model
+
+def large_plan(ms):
+    """A fixed operation sequence over ~1.5 * ms integer keys that passes through: fill to capacity, lookups of every third
+    key, inserts that evict, a bulk update longer than the capacity with repeated keys, removals, defaulted lookups,
+    |= with a mapping larger than the capacity, copy (continuing on the copy), clear and refill."""
+    ops = [('set', k, k) for k in range(ms)]
+    ops += [('getitem', k) for k in range(0, ms, 3)]
+    ops += [('set', ms + k, -k) for k in range(ms // 2)]
+    ops += [('getd', k, 'D') for k in range(0, ms + ms // 2, 7)]
+    ops.append(('update_pairs', tuple((k % (ms + 5), k) for k in range(2 * ms + 3))))
+    ops += [('del', k) for k in range(6, ms, 5)] + [('popd', k, 'D') for k in range(1, ms, 11)]
+    ops += [('setdefaultd', k, 's') for k in range(0, ms + 20, 4)]
+    ops.append(('copy',))
+    ops.append(('ior', tuple((k, 'i') for k in range(ms // 2, 2 * ms))))
+    ops += [('getitem', k) for k in range(ms, 2 * ms, 2)]
+    ops.append(('update_map', tuple((k, 'm') for k in range(0, ms + 1))))
+    ops += [('popitem',)] * 3
+    ops.append(('clear',))
+    ops += [('set', k, 1) for k in range(ms + 2)]
+    return ops
+
+
+def large_shard(arg):
+    clsname, ms = arg
+    from boltons import cacheutils
+    from mc.inputs import Tally
+    t = Tally()
+    cls = getattr(cacheutils, clsname)
+    c, ref = cls(max_size=ms), Ref(clsname == 'LRU', ms, False)
+    case = {'config': {'class': clsname, 'max_size': ms, 'keys': 'directed-large'}, 'history': 'large_plan(%d)' % ms}
+    plan = large_plan(ms)
+
+    def agree(i, op):
+        if len(c) > ms:
+            t.bad('C02|large|len>max_size', case, '<= %d' % ms, {'step': i, 'op': repr(op)[:80], 'len': len(c)})
+            return False
+        r = ring(c)
+        if r is not None and list(map(list, r)) != ref.order:
+            t.bad('C02|large|recency-ring', case, 'as the reference', {'step': i, 'op': repr(op)[:80]})
+            return False
+        if dict(dict.items(c)) != ref.contents():
+            t.bad('C02|large|contents', case, 'as the reference', {'step': i, 'op': repr(op)[:80]})
+            return False
+        return True
+
+    global RING_LIMIT
+    saved, RING_LIMIT = RING_LIMIT, 4 * ms + 64
+    try:
+        for i, op in enumerate(plan):
+            t.count(nontrivial=True)
+            if op[0] == 'copy':
+                try:
+                    c2 = c.copy()
+                except Exception as e:
+                    t.bad('C02|large|op:copy|raised', case, 'a copy', type(e).__name__)
+                    break
+                c, ref = c2, ref.copy()
+            else:
+                r_i = impl_apply(c, op)
+                r_m = ref.apply(op, r_i)
+                if r_i != r_m:
+                    t.bad('C02|large|op:%s|result' % op[0], case, repr(r_m)[:80], {'step': i, 'op': repr(op)[:80], 'got': repr(r_i)[:80]})
+                    break
+            bulk = op[0] in ('update_pairs', 'update_map', 'ior', 'copy', 'clear')
+            if (bulk or i % 64 == 0 or i == len(plan) - 1) and not agree(i, op):
                 break
         else:
-            # reads with key objects, and the eviction order by further inserts of key objects
-            for n in names:
-                if (KO[n] in c) != (n in ref.contents()):
-                    t.bad('C02|strict-keys|read:in', case, n in ref.contents(), KO[n] in c)
-            try:
-                same = (c == {KO[k]: v for k, v in ref.contents().items()})
-            except Exception as e:
-                same = 'raised ' + type(e).__name__
-            if same is not True:
-                t.bad('C02|strict-keys|read:==dict(equal)', case, True, same)
-            gone = []
-            try:
-                for j in range(ms + 1):
-                    c[StrictKey('probe%d' % j)] = j
-                    for n in names:
-                        if n in ref.contents() and n not in gone and not dict.__contains__(c, KO[n]):
-                            gone.append(n)
-            except Exception as e:
-                gone = 'raised ' + type(e).__name__
-            want = [k for k, _ in ref.order]
-            if gone != want:
-                t.bad('C02|strict-keys|eviction-order(probe)', case, want, gone)
+            # black box: each further insert evicts exactly the reference's oldest key
+            for j in range(ms + 1):
+                victim = ref.order[0][0] if len(ref.order) >= ms else None
+                c[('probe', j)] = j
+                ref.set(('probe', j), j)
+                t.count(nontrivial=True)
+                if len(c) > ms or (victim is not None and dict.__contains__(c, victim)):
+                    t.bad('C02|large|eviction-order(probe)', case, 'evicts %r' % (victim,), {'probe': j, 'len': len(c)})
+                    break
+    finally:
+        RING_LIMIT = saved
     return t
 
 
@@ -664,21 +786,33 @@ def run(ctx):
         for ms in (1, 2):
             names = ALLKEYS[:ms + 1]
             for lead in [('set', n, 1) for n in names] + [('update_pairs', tuple((n, 0) for n in names))]:
-                sk_tasks.append((cls, ms, lead))
-    inputs.run_shards(ctx, strict_shard, sk_tasks, part='strict-keys', rule=(
-        'every history of 3 operations (the first one an insert) with keys of a class whose __eq__ accepts only its own '
-        'kind, against the reference cache'))
+                for family in KEY_FAMILIES:
+                    sk_tasks.append((cls, ms, lead, family))
+    inputs.run_shards(ctx, strict_shard, sk_tasks, part='key-kinds', rule=(
+        'every history of 3 operations (the first one an insert) per key family - keys of a class whose __eq__ accepts '
+        'only its own kind; tuples of length 0-2; None and falsy keys; floats, big ints, bytes, frozensets - against the '
+        'reference cache'))
+    sizes = (64, 257, 1025) if ctx.quick() else (64, 129, 257, 513, 1025, 4097)
+    inputs.run_shards(ctx, large_shard, [(cls, ms) for cls in ('LRI', 'LRU') for ms in sizes], part='directed-large', rule=(
+        'directed, NOT exhaustive: one fixed operation sequence per capacity (see large_plan) against the reference cache, '
+        'ring and contents compared after every bulk operation and every 64th step, then one eviction probe per slot'))
     cov = histories.merge_coverage(ctx, parts, rule=(
         'BFS to fixpoint over all histories of the op menu (keys = max_size+1, values as listed per search); a state is the '
         'canonical form of the real object (ring walk, dict items in dict order, lookup keys, on_miss flag)'))
     cov['exhaustive'] = all(r.fixpoint for _, r in parts)
-    ctx.assumptions += ['keys are plain strings with well-behaved __eq__/__hash__',
+    ctx.assumptions += ['keys in the fixpoint searches are plain strings; other key kinds only in the depth-3 key-kinds part',
                         'counters do not influence behaviour and are compared as per-step deltas',
                         'popitem may remove any present item (the reference follows the implementation)']
 
 
 def replay(ctx, data):
     cfg = data['case']['config']
+    if cfg.get('keys') == 'directed-large':
+        t = large_shard((cfg['class'], cfg['max_size']))
+        return ['%s expected=%r observed=%r' % (rec[6], rec[1], rec[2]) for rec in t.viols.values()]
+    if isinstance(cfg.get('keys'), str):         # a key-kinds history
+        hist = [tuple(tuple(tuple(y) for y in x) if isinstance(x, list) else x for x in op) for op in data['case']['history']]
+        return ['%s expected=%r observed=%r' % v for v in family_history(cfg['class'], cfg['max_size'], cfg['keys'], hist)]
     spec = Spec(cfg['class'], cfg['max_size'], cfg['on_miss'], nkeys=len(cfg['keys']), values=cfg.get('values', VALUES))
     hist = [tuple(tuple(tuple(y) if isinstance(y, list) else y for y in x) if isinstance(x, list) else x
                   for x in op) for op in data['case']['history']]
